@@ -290,6 +290,28 @@ Theorem C15_gs_tikhonov_stop_fixed_partial :
 Proof. exact gs_tikhonov_stop_fixed. Qed.
 Print Assumptions C15_gs_tikhonov_stop_fixed_partial.
 
+(* [core] ... and in dimension <= 5 the convergence hypothesis is a theorem (the inner system A^H A + lamb is self-adjoint positive
+   definite, so ConjugateGradient(system, b, x, max_iter=5) solves it exactly -- C12_cg_run_solves): for EVERY state s, with lamb > 0
+   an early stop happens only at x = 0, and that is a fixed point of the whole update. *)
+Theorem C15_gs_tikhonov_stop_fixed_dim5 :
+  forall (H : IPSpace) (cphase : R * R -> R * R) (A : ipV H -> list (R * R)) (AH : list (R * R) -> ipV H)
+         (y : list R) (lamb : R),
+    (forall v, length (A v) = length y) ->
+    (forall w, cscale (ops_of H) (cabs (ops_of H) w) (cphase w) = w) ->
+    (forall w, cabs (ops_of H) (cphase w) = 1) ->
+    (forall v w, length w = length y -> ipdot H v (AH w) = cdot (A v) w) ->
+    dim_le H 5 -> 0 < lamb ->
+    forall s : gs_state (ops_of H),
+      let C := GSClass (ops_of H) Rabs cphase A AH y lamb in
+      gs_residual (update C s) <= 0 ->
+      gs_x (update C s) = ip0 H /\
+      gs_x (update C (update C s)) = gs_x (update C s) /\
+      gs_residual (update C (update C s)) = gs_residual (update C s).
+Proof. exact gs_tikhonov_stop_fixed_dim5. Qed.
+Print Assumptions C15_gs_tikhonov_stop_fixed_dim5.
+Example C15_gs_dim5_satisfiable : dim_le (RnSpace 5) 5.
+Proof. exact (Rn_dim_le 5). Qed.
+
 (* the real inner product used above, spelled out: Re <u, v> = sum_i (re u_i re v_i + im u_i im v_i) *)
 Theorem C15_cdot_unfold : forall a b u v, cdot (a :: u) (b :: v) = fst a * fst b + snd a * snd b + cdot u v.
 Proof. exact (fun a b u v => eq_refl). Qed.
